@@ -645,13 +645,19 @@ def boundOnce (proj : Project) (rank : List Nat) : Bool :=
   (List.range proj.length).all fun m =>
     nodupB (modNames proj (rankOf rank m + 1) m) && classNodupStmts (bodyOf proj m)
 
+/-- no definition is named like a superseded duplicate (`name 0`): names contain no space -/
+def namesOk (proj : Project) : Bool :=
+  allProj proj fun _ _ st => match st.defName with
+    | some n => !isSupersededName n
+    | none => true
+
 /-- **WF**: the property's quantifier — an acyclic multi-package project (`rank` is a topological
 index), qualified names of definitions unique, each name bound once per scope — plus the
 restrictions under which the theorems are proved: imports stay inside the project, no base
 classes, no `__all__` re-exports, root names reserved for the root modules. -/
 def WF (proj : Project) (rank : List Nat) : Bool :=
   modulesOk proj && pathsUnique proj && importsOk proj rank && boundOnce proj rank &&
-  noBases proj && noStarInClass proj && noReexport proj && rootsReserved proj
+  noBases proj && noStarInClass proj && noReexport proj && rootsReserved proj && namesOk proj
 
 
 end Imports
